@@ -761,10 +761,15 @@ func runScript(s scriptT) obsT {
 	o := obsT{ID: s.ID, Script: s, Settled: settled, Hubs: map[string]hubObs{}, ShutDown: shut, Sent: map[string][]string{},
 		UserReg: map[string]bool{"A": registered["A"], "B": registered["B"]}, AutoOn: map[string]bool{"A": autoOn["A"], "B": autoOn["B"]}}
 	// echo: whatever each application writes now must arrive at the other one
+	// (what both have received so far is noted before either writes: a payload can arrive faster than this loop turns)
 	before := map[string]int{}
 	for name, n := range eth.nodes {
 		n.mu.Lock()
 		before[name] = len(n.received)
+		n.mu.Unlock()
+	}
+	for _, n := range eth.nodes {
+		n.mu.Lock()
 		ws := append([]api.ShipConnectionDataWriterInterface{}, n.writers...)
 		n.mu.Unlock()
 		// the application writes through every writer it was handed (those of closed connections drop the payload)
